@@ -131,6 +131,9 @@ def canon_path(p, opfns):
             c = [(b_, "true" if (const == holds) else "false")]
         elif subj.endswith(".Bool.0") and rel in ("val 0", "val not:0"):
             c = [(subj, "false" if rel == "val 0" else "true")]
+        elif _re.fullmatch(r"Not\((.*\.Bool\.0)\)", subj) and rel in ("val 0", "val not:0"):
+            # `!b` (also the normal form of `b == false`) as a condition is a condition on b
+            c = [(subj[4:-1], "true" if rel == "val 0" else "false")]
         elif subj.startswith("Value::eq(") and subj.endswith(", None)") and rel in ("val 0", "val not:0"):
             a = subj[len("Value::eq("):-len(", None)")]
             if rel == "val not:0":
